@@ -30,14 +30,14 @@ func init() { register("c01", cmdC01) }
 
 // ---------- the two generator instances ----------
 
-var c01FgOn, fgOff *value.FunctionGenerator
+var c01FgOn, c01FgOff *value.FunctionGenerator
 var c01Statics map[string]bool
 
 func c01Setup() {
 	log.SetOutput(io.Discard) // the top-level recover of generated functions logs the panic and its stack
 	c01FgOn = value.New()
-	fgOff = value.New()
-	fgOff.SetOptimizer(nil)
+	c01FgOff = value.New()
+	c01FgOff.SetOptimizer(nil)
 	c01Statics = map[string]bool{}
 	for _, f := range c01FgOn.VerifStaticFunctions() {
 		c01Statics[f.Name] = true
@@ -132,8 +132,8 @@ func c01ParseOff(text string, names []string) (term string, parseErr error, unsu
 			parseErr = fmt.Errorf("panic in the parser: %v", r)
 		}
 	}()
-	idents := fgOff.Identifier().AddArgs(names, nil)
-	ast, err := fgOff.CreateAst(text, idents)
+	idents := c01FgOff.Identifier().AddArgs(names, nil)
+	ast, err := c01FgOff.CreateAst(text, idents)
 	if err != nil {
 		return "", err, ""
 	}
@@ -392,7 +392,7 @@ func (r *c01Run) runCase(p *pgProgram, id int) {
 			c01KeepMessages = true
 		}
 	})
-	off := c01RunImpl(fgOff, text, p.ArgNames, p.Tuples)
+	off := c01RunImpl(c01FgOff, text, p.ArgNames, p.Tuples)
 	on := c01RunImpl(c01FgOn, text, p.ArgNames, p.Tuples)
 	sum.Evaluations++
 
